@@ -1,7 +1,650 @@
 /-
-  Property C10 — theorems about QEModel.C10 (stub; to be filled in).
+  Property C10 — simulated paths stay in the state space and follow the transition law:
+  theorems about QEModel.C10 (the definitions the driver `qedriver_c10` executes).
+
+  Reading guide.  `searchsorted`, `searchsortedCdf`, `cumsum`, `pathDense`, `pathSparse`,
+  `initStates`, `simulateIndices`, `simulate`, `mcSamplePath`, `drvDraw`, `draw` are the model
+  functions.  The random numbers are *arguments* (`u`, `us`), universally quantified: nothing below
+  assumes `u < 1` (or anything else) unless stated, so "every random stream" is literal.
+  The range theorems hold over any type with a decidable `<` and a `==` — in particular they are
+  statements about the `Float` instance the driver runs (NaN and infinities included).  The
+  inverse-CDF / positive-probability theorems are over an arbitrary linear order with an addition
+  of which only `x + 0 = x` and `0 ≤ p → x ≤ x + p` are assumed (true of IEEE-754 addition on
+  finite doubles and of exact addition); `…_rat` are the instances at `Rat`, `…_rounded` the
+  instances for an arbitrary monotone idempotent rounding of the sums (`Lemmas/C10Round.lean`).
+
+  Specification predicates used in the statements (all short, defined in `QEProofs/Lemmas/`):
+    IsBisect a v r      C10Search  r ≤ len a, a[i] ≤ v for i < r, v < a[i] for i ≥ r
+    IsFirstMax a b      C10Cdf     b is the first index with a[b] = a[-1]
+    IsPathOf step s us p C10Path   len p = len us + 1, p[0] = s, step p[t] us[t] = some p[t+1] for all t
+    CsrOK n c1d idx ptr C10Path    n+1 row pointers; every row nonempty, inside c1d and idx; columns < n
+    CsrCanon n data idx ptr C10Csr ptr[0] = 0, ptr strictly increasing, ptr[n] = len data = len idx, columns < n
+    InitOK n init reps  C10Path    every requested initial state lies in [-n, n)
+    InitNonneg n init   C10Draw    every requested initial state lies in [0, n)
+    docK / docDim       C10Path    documented number of paths / ndim of the result
+    requested n drawn init j C10Path  j-th requested start: init[j mod len init] mod n, the scalar mod n, or drawn[j]
+    norm n i            C10Path    (i mod n) as a natural number
+    ssLoopC / backoffC / searchsortedCdfC  C10Reads  the searches with aborting reads
+    Rounding, Fl R      C10Round   abstract rounded arithmetic
 -/
+import Mathlib.Order.Defs.LinearOrder
+import Mathlib.Algebra.Order.Ring.Rat
 import QEModel.C10
+import QEProofs.Lemmas.C10Search
+import QEProofs.Lemmas.C10Cdf
+import QEProofs.Lemmas.C10Path
+import QEProofs.Lemmas.C10Draw
+import QEProofs.Lemmas.C10Csr
+import QEProofs.Lemmas.C10Reads
+import QEProofs.Lemmas.C10Sv
+import QEProofs.Lemmas.C10Accept
+import QEProofs.Lemmas.C10Round
 namespace QE.C10
+variable {α : Type}
+
+/-! ## 1. the binary search (util/array.py `searchsorted`) -/
+
+/-- **searchsorted_spec.** On a sorted array over any linear order (so: exactly on doubles),
+    `r = searchsorted a v` satisfies `r ≤ len a`, `a[i] ≤ v` for all `i < r` and `v < a[i]` for all
+    `i ≥ r`: it is the least index with `v < a[i]`, or `len a` if there is none. -/
+theorem searchsorted_spec [LinearOrder α] (a : List α) (v : α) (hs : a.Pairwise (· ≤ ·)) :
+    searchsorted a v ≤ a.length ∧
+    (∀ i (h : i < a.length), i < searchsorted a v → a[i] ≤ v) ∧
+    (∀ i (h : i < a.length), searchsorted a v ≤ i → v < a[i]) :=
+  searchsorted_isBisect a v hs
+
+example : ([1, 3, 3, 8] : List Int).Pairwise (· ≤ ·) := by decide
+example : searchsorted ([1, 3, 3, 8] : List Int) 3 = 3 := by decide +kernel
+
+/-- the specification determines the result: any `r` with the three properties *is* the result -/
+theorem searchsorted_unique [LinearOrder α] (a : List α) (v : α) (hs : a.Pairwise (· ≤ ·)) (r : Nat)
+    (h0 : r ≤ a.length) (h1 : ∀ i (h : i < a.length), i < r → a[i] ≤ v)
+    (h2 : ∀ i (h : i < a.length), r ≤ i → v < a[i]) : searchsorted a v = r :=
+  (searchsorted_isBisect a v hs).unique ⟨h0, h1, h2⟩
+
+/-- **Every array, every value** (unsorted, NaN, …): the result `r` is at most `len a`, reads stay
+    inside the array, and locally `¬ v < a[r-1]` (if `r > 0`) and `v < a[r]` (if `r < len a`). -/
+theorem searchsorted_any_array [LT α] [DecidableLT α] (a : List α) (v : α) :
+    searchsorted a v ≤ a.length ∧
+    (searchsorted a v = 0 ∨ ∃ x, a[searchsorted a v - 1]? = some x ∧ ¬ v < x) ∧
+    (searchsorted a v = a.length ∨ ∃ x, a[searchsorted a v]? = some x ∧ v < x) :=
+  ⟨searchsorted_le a v, (searchsorted_local a v).1, (searchsorted_local a v).2⟩
+
+/-- The plain search leaves the array exactly when `u ≥ cdf[-1]` — the situation of defect F2
+    (ten masses `0.1` have the double cumulative sum `1 − 2⁻⁵³`, and `u = 1 − 2⁻⁵³` is a legal
+    uniform): this is why `searchsorted_cdf` needs its back-off branch. -/
+theorem searchsorted_eq_length_iff [LinearOrder α] (cdf : List α) (u : α) (hs : cdf.Pairwise (· ≤ ·))
+    (hne : cdf ≠ []) : searchsorted cdf u = cdf.length ↔ cdf.getLast hne ≤ u := by
+  have hb := searchsorted_isBisect cdf u hs
+  have hpos : 0 < cdf.length := List.length_pos_iff.mpr hne
+  rw [List.getLast_eq_getElem]
+  constructor
+  · intro h
+    exact hb.2.1 (cdf.length - 1) (by omega) (by omega)
+  · intro h
+    by_contra hc
+    have hlt : searchsorted cdf u < cdf.length := by have := hb.1; omega
+    exact absurd (hb.2.2 (cdf.length - 1) (by omega) (by omega)) (not_lt.mpr h)
+
+/-- witness for the left-hand side (integers standing for the doubles): `u = cdf[-1]` -/
+example : searchsorted ([2, 5, 9] : List Int) 9 = 3 := by decide +kernel
+
+/-! ## 2. `searchsorted_cdf`: never outside the array; inverse CDF; positive probability -/
+
+/-- **No draw, however close to 1, produces an index outside the state space.**
+    For a nonempty array and *any* value `v` (no order axioms, no sortedness; `α = Float` allowed)
+    `searchsorted_cdf` returns an index `< len cdf`. -/
+theorem searchsortedCdf_in_range [LT α] [DecidableLT α] [BEq α] (cdf : List α) (v : α)
+    (h : cdf ≠ []) : searchsortedCdf cdf v < cdf.length :=
+  searchsortedCdf_lt cdf v h
+
+/-- the statement instantiated at the scalar type the driver runs against the code's bits -/
+example (cdf : List Float) (v : Float) (h : cdf ≠ []) : searchsortedCdf cdf v < cdf.length :=
+  searchsortedCdf_in_range cdf v h
+
+/-- **step_inverse_cdf.** Let `p` be a nonempty row of nonnegative masses, `cdf = cumsum p`
+    (sequential sums; only monotonicity of `+` is used).  With `j = searchsorted_cdf(cdf, u)`:
+    * if `u < cdf[-1]` then `cdf[i] ≤ u` for all `i < j` and `u < cdf[i]` for all `i ≥ j`
+      — i.e. `cdf[j-1] ≤ u < cdf[j]`, the inverse-CDF image of `u`;
+    * if `u ≥ cdf[-1]` (possible for `u < 1` because of rounding in the sum) then `j` is the first
+      index with `cdf[j] = cdf[-1]`: the last state whose mass moved the cumulative sum. -/
+theorem step_inverse_cdf [LinearOrder α] [Add α] [Zero α]
+    (hmono : ∀ x p : α, 0 ≤ p → x ≤ x + p) (p : List α) (u : α)
+    (hp : ∀ x ∈ p, (0 : α) ≤ x) (hne : p ≠ []) :
+    let cdf := cumsum p
+    let j := searchsortedCdf cdf u
+    (u < cdf.getLast (cumsum_ne_nil hne) →
+      j ≤ cdf.length ∧ (∀ i (h : i < cdf.length), i < j → cdf[i] ≤ u) ∧
+        (∀ i (h : i < cdf.length), j ≤ i → u < cdf[i])) ∧
+    (cdf.getLast (cumsum_ne_nil hne) ≤ u →
+      ∃ hj : j < cdf.length, cdf[j] = cdf.getLast (cumsum_ne_nil hne) ∧
+        ∀ i (h : i < cdf.length), i < j → cdf[i] < cdf.getLast (cumsum_ne_nil hne)) := by
+  intro cdf j
+  have hs : cdf.Pairwise (· ≤ ·) := cumsum_sorted hmono p hp
+  obtain ⟨h1, h2⟩ := searchsortedCdf_spec cdf u hs (cumsum_ne_nil hne)
+  refine ⟨fun hu => h1 hu, fun hu => ?_⟩
+  obtain ⟨_, hb, hv, hall⟩ := h2 hu
+  exact ⟨hb, hv, hall⟩
+
+/-- **Only transitions of positive probability.**  Same row `p` (nonnegative, positive total
+    cumulative sum) and any `u ≥ 0`: the returned index is a valid position and `p[j] > 0`.
+    Uses only `x + 0 = x` about the addition. -/
+theorem step_positive_probability [LinearOrder α] [Add α] [Zero α] (hadd0 : ∀ x : α, x + 0 = x)
+    (p : List α) (u : α) (hp : ∀ x ∈ p, (0 : α) ≤ x) (hu : 0 ≤ u) (hne : p ≠ [])
+    (hlast : 0 < (cumsum p).getLast (cumsum_ne_nil hne)) :
+    ∃ h : searchsortedCdf (cumsum p) u < p.length, 0 < p[searchsortedCdf (cumsum p) u] :=
+  searchsortedCdf_mass_pos hadd0 p u hp hu (fun _ => hlast) hne
+
+/-- instance at `Rat`, the exact reference scalar of the driver (`sc=rat`) -/
+theorem step_positive_probability_rat (p : List Rat) (u : Rat) (hp : ∀ x ∈ p, (0 : Rat) ≤ x)
+    (hu : 0 ≤ u) (hne : p ≠ []) (hlast : 0 < (cumsum p).getLast (cumsum_ne_nil hne)) :
+    ∃ h : searchsortedCdf (cumsum p) u < p.length, 0 < p[searchsortedCdf (cumsum p) u] :=
+  step_positive_probability (fun x => add_zero x) p u hp hu hne hlast
+
+theorem step_inverse_cdf_rat (p : List Rat) (u : Rat) (hp : ∀ x ∈ p, (0 : Rat) ≤ x) (hne : p ≠ []) :
+    let cdf := cumsum p
+    let j := searchsortedCdf cdf u
+    (u < cdf.getLast (cumsum_ne_nil hne) →
+      j ≤ cdf.length ∧ (∀ i (h : i < cdf.length), i < j → cdf[i] ≤ u) ∧
+        (∀ i (h : i < cdf.length), j ≤ i → u < cdf[i])) ∧
+    (cdf.getLast (cumsum_ne_nil hne) ≤ u →
+      ∃ hj : j < cdf.length, cdf[j] = cdf.getLast (cumsum_ne_nil hne) ∧
+        ∀ i (h : i < cdf.length), i < j → cdf[i] < cdf.getLast (cumsum_ne_nil hne)) :=
+  step_inverse_cdf (fun _ _ hp => le_add_of_nonneg_right hp) p u hp hne
+
+/-- non-vacuity: masses `(2,0,5,0)/7` written as integers; `u = 3` falls in the third cell,
+    `u = 7 = cdf[-1]` is clamped to index 2 (not to the zero-mass index 3, and not to 4). -/
+example : cumsum ([2, 0, 5, 0] : List Int) = [2, 2, 7, 7] := by decide
+example : searchsortedCdf (cumsum ([2, 0, 5, 0] : List Int)) 3 = 2 := by decide +kernel
+example : searchsortedCdf (cumsum ([2, 0, 5, 0] : List Int)) 7 = 2 := by decide +kernel
+example : searchsorted (cumsum ([2, 0, 5, 0] : List Int)) 7 = 4 := by decide +kernel
+example : ∀ x ∈ ([2, 0, 5, 0] : List Int), (0 : Int) ≤ x := by decide
+
+/-! ## 3. paths: induction over the path, for every stream -/
+
+/-- **path_valid (dense kernel).**  `cdfs` square (`n` rows of length `n`, *nothing else* — not
+    even sortedness), `init < n`.  Then for **every** list `us` (of any values) the kernel returns
+    a path `p` with `len p = len us + 1`, `p[0] = init`, all entries `< n`, and
+    `p[t+1] = searchsorted_cdf(cdfs[p[t]], us[t])` for every `t`; no read leaves the arrays
+    (the model's out-of-range result `none` is excluded). -/
+theorem path_valid_dense [LT α] [DecidableLT α] [BEq α] (cdfs : List (List α))
+    (hsq : ∀ row ∈ cdfs, row.length = cdfs.length) (init : Nat) (hinit : init < cdfs.length)
+    (us : List α) :
+    ∃ p, pathDense cdfs init us = some p ∧ p.length = us.length + 1 ∧ p[0]? = some init ∧
+      (∀ x ∈ p, x < cdfs.length) ∧
+      ∀ t (ht : t < us.length), ∃ a b, ∃ ha : a < cdfs.length, p[t]? = some a ∧ p[t + 1]? = some b ∧
+        cdfs[a] ≠ [] ∧ b = searchsortedCdf cdfs[a] us[t] := by
+  obtain ⟨p, hp, ⟨hlen, hhead, hfol⟩, hall⟩ :=
+    pathFrom_valid (denseStep cdfs) cdfs.length (fun s u hs => denseStep_lt cdfs hsq s u hs) us init hinit
+  refine ⟨p, hp, hlen, hhead, hall, ?_⟩
+  intro t ht
+  obtain ⟨a, b, ha, hb, hab⟩ := hfol t ht
+  obtain ⟨hs, hne, hbe⟩ := denseStep_eq cdfs a us[t] b hab
+  exact ⟨a, b, hs, ha, hb, hne, hbe⟩
+
+/-- non-vacuity: a 2-state chain (cdf rows as integers), three draws including `u = cdf[-1]` -/
+example : pathDense ([[1, 4], [4, 4]] : List (List Int)) 0 [0, 4, 2] = some [0, 0, 1, 0] := by
+  decide +kernel
+
+/-- **path_valid (CSR kernel).**  Arrays as `scipy.sparse.csr_matrix` provides them (`CsrOK`:
+    `n+1` row pointers, each row nonempty and inside `cdfs1d`/`indices`, stored columns `< n`),
+    `init < n`: for every stream the kernel returns a path of the right length that starts at
+    `init`, stays below `n`, and follows the CSR step; no read leaves `indptr`, `cdfs1d`, `indices`. -/
+theorem path_valid_sparse [LT α] [DecidableLT α] [BEq α] (n : Nat) (c1d : List α)
+    (indices indptr : List Nat) (hok : CsrOK n c1d indices indptr) (init : Nat) (hinit : init < n)
+    (us : List α) :
+    ∃ p, pathSparse c1d indices indptr init us = some p ∧
+      IsPathOf (sparseStep c1d indices indptr) init us p ∧ ∀ x ∈ p, x < n :=
+  pathFrom_valid (sparseStep c1d indices indptr) n
+    (fun s u hs => sparseStep_lt n c1d indices indptr hok s u hs) us init hinit
+
+/-- non-vacuity for `CsrOK` and the sparse kernel: rows `{1: 3/3}`, `{0: 1/4, 1: 0, 0: 3/4}` -/
+example : CsrOK 2 ([3, 1, 1, 4] : List Int) [1, 0, 1, 0] [0, 1, 4] := by
+  refine ⟨?_, by decide⟩
+  intro s hs
+  have : s = 0 ∨ s = 1 := by omega
+  rcases this with rfl | rfl
+  · exact ⟨0, 1, rfl, rfl, by decide, by decide, by decide⟩
+  · exact ⟨1, 4, rfl, rfl, by decide, by decide, by decide⟩
+example : pathSparse ([3, 1, 1, 4] : List Int) [1, 0, 1, 0] [0, 1, 4] 0 [5, 0, 9, 2] = some [0, 1, 0, 1, 0] := by
+  decide +kernel
+
+/-- **Only positive-probability transitions along the whole path (dense).**  `P` square with
+    nonnegative entries and positive row totals, `cdfs = cdfsDense P` (the model of
+    `MarkovChain.cdfs`), every `u ≥ 0`: each transition `a → b` of the returned path has
+    `P[a][b] > 0`. -/
+theorem path_transitions_positive_dense [LinearOrder α] [Add α] [Zero α]
+    (hadd0 : ∀ x : α, x + 0 = x) (P : List (List α))
+    (hsq : ∀ row ∈ P, row.length = P.length)
+    (hnn : ∀ row ∈ P, ∀ x ∈ row, (0 : α) ≤ x)
+    (htot : ∀ row ∈ P, ∀ h : cumsum row ≠ [], 0 < (cumsum row).getLast h)
+    (init : Nat) (hinit : init < P.length) (us : List α) (hus : ∀ u ∈ us, (0 : α) ≤ u) :
+    ∃ p, pathDense (cdfsDense P) init us = some p ∧ p.length = us.length + 1 ∧ p[0]? = some init ∧
+      (∀ x ∈ p, x < P.length) ∧
+      ∀ t, t < us.length → ∃ a b, ∃ (ha : a < P.length) (hb : b < P[a].length),
+        p[t]? = some a ∧ p[t + 1]? = some b ∧ 0 < P[a][b] := by
+  have hlenc : (cdfsDense P).length = P.length := by simp [cdfsDense]
+  obtain ⟨p, hp, hlen, hhead, hall, hfol⟩ :=
+    path_valid_dense (cdfsDense P) (cdfsDense_square P hsq) init (by omega) us
+  refine ⟨p, hp, hlen, hhead, fun x hx => by have := hall x hx; omega, ?_⟩
+  intro t ht
+  obtain ⟨a, b, ha, hpa, hpb, _, hbe⟩ := hfol t ht
+  have ha' : a < P.length := by omega
+  have hrow : (cdfsDense P)[a] = cumsum P[a] := by simp [cdfsDense]
+  have hmem : P[a] ∈ P := List.getElem_mem ha'
+  have hne : P[a] ≠ [] := by
+    intro h0
+    have := hsq _ hmem
+    rw [h0] at this; simp at this; omega
+  obtain ⟨hlt, hpos⟩ := searchsortedCdf_mass_pos hadd0 P[a] us[t] (hnn _ hmem)
+    (hus _ (List.getElem_mem ht)) (htot _ hmem) hne
+  rw [hrow] at hbe
+  subst hbe
+  exact ⟨a, _, ha', hlt, hpa, hpb, hpos⟩
+
+/-! ## 4. init handling and the assembled `simulate_indices` / `simulate` / `mc_sample_path` -/
+
+/-- **Range check of `init`.** The call is refused (always with `ValueError`) exactly when some
+    requested initial state lies outside `[-n, n)` (or `init=None` with an empty state space). -/
+theorem init_error_iff (n : Nat) (init : Init) (reps : Option Nat) (drawn : List Nat) :
+    ((∃ e, initStates n init reps drawn = .error e) ↔ ¬ InitOK n init reps) ∧
+    ∀ e, initStates n init reps drawn = .error e → e = .valueError :=
+  ⟨initStates_error_iff n init reps drawn, fun e h => initStates_error_kind n init reps drawn e h⟩
+
+/-- **Shapes, tiling, start states.** On an accepted request: `dim` and the number `k` of paths are
+    the documented ones (`k = len init`, `num_reps`, `len init · num_reps` or `1`), every initial
+    state is `< n`, and path `j` starts at the `j`-th requested state: `init[j mod len init]`
+    normalised modulo `n` (so negative indices never reach the kernels — defect F3), the scalar, or
+    the drawn state. -/
+theorem init_spec (n : Nat) (init : Init) (reps : Option Nat) (drawn : List Nat) (ir : InitRes)
+    (h : initStates n init reps drawn = .ok ir)
+    (hdrawn : init = .none → docK init reps ≤ drawn.length ∧ ∀ d ∈ drawn, d < n) :
+    ir.dim = docDim init reps ∧ ir.states.length = docK init reps ∧ (∀ s ∈ ir.states, s < n) ∧
+    ∀ j, j < docK init reps → ir.states[j]? = requested n drawn init j ∧ (ir.states[j]?).isSome :=
+  initStates_ok_spec n init reps drawn ir h hdrawn
+
+/-- a nonnegative in-range state is kept, a negative one `i` becomes `n + i` -/
+theorem norm_spec (n : Nat) (i : Int) :
+    (0 ≤ i → i < n → norm n i = i.toNat) ∧ (i < 0 → -(n : Int) ≤ i → (norm n i : Int) = n + i) ∧
+    (inRange n i = true → norm n i < n) :=
+  ⟨norm_of_nonneg n i, norm_of_neg n i, norm_lt n i⟩
+
+example : initStates 3 (.arr [-1, 2]) (some 2) [] = .ok ⟨2, [2, 2, 2, 2]⟩ := by rfl
+example : initStates 3 (.arr [-3, 1]) (some 2) [] = .ok ⟨2, [0, 1, 0, 1]⟩ := by rfl
+example : initStates 3 (.scalar 3) none [] = .error .valueError := by rfl
+example : InitOK 3 (.arr [-3, 1]) (some 2) := by simp [InitOK, inRange]
+
+/-- **simulate_indices, dense, every stream.**  Square cdf array, acceptable request, `ts ≥ 1`, a
+    `(k, ts−1)` array of arbitrary values: the call returns the documented shape; every path has
+    length `ts`, starts at its requested state, has all entries `< n` and follows the kernel step. -/
+theorem simulate_indices_valid_dense [LT α] [DecidableLT α] [BEq α] (cdfs : List (List α))
+    (hsq : ∀ row ∈ cdfs, row.length = cdfs.length)
+    (init : Init) (reps : Option Nat) (drawn : List Nat) (ts : Nat) (us : List (List α))
+    (hok : InitOK cdfs.length init reps)
+    (hdrawn : init = .none → docK init reps ≤ drawn.length ∧ ∀ d ∈ drawn, d < cdfs.length)
+    (hts : 0 < ts) (hk : us.length = docK init reps) (hrow : ∀ r ∈ us, r.length + 1 = ts) :
+    ∃ ps, simulateIndices cdfs.length (pathDense cdfs) init reps drawn ts us
+        = .ok (some ⟨docDim init reps, ps⟩) ∧
+      ps.length = docK init reps ∧
+      ∀ j, j < docK init reps → ∃ p s0 u, ps[j]? = some p ∧ us[j]? = some u ∧
+        requested cdfs.length drawn init j = some s0 ∧ IsPathOf (denseStep cdfs) s0 u p ∧
+        p.length = ts ∧ ∀ x ∈ p, x < cdfs.length :=
+  simulateIndices_valid cdfs.length (denseStep cdfs) (fun s u hs => denseStep_lt cdfs hsq s u hs)
+    init reps drawn ts us hok hdrawn hts hk hrow
+
+/-- **simulate_indices, CSR, every stream.** -/
+theorem simulate_indices_valid_sparse [LT α] [DecidableLT α] [BEq α] (n : Nat) (c1d : List α)
+    (indices indptr : List Nat) (hcsr : CsrOK n c1d indices indptr)
+    (init : Init) (reps : Option Nat) (drawn : List Nat) (ts : Nat) (us : List (List α))
+    (hok : InitOK n init reps)
+    (hdrawn : init = .none → docK init reps ≤ drawn.length ∧ ∀ d ∈ drawn, d < n)
+    (hts : 0 < ts) (hk : us.length = docK init reps) (hrow : ∀ r ∈ us, r.length + 1 = ts) :
+    ∃ ps, simulateIndices n (pathSparse c1d indices indptr) init reps drawn ts us
+        = .ok (some ⟨docDim init reps, ps⟩) ∧
+      ps.length = docK init reps ∧
+      ∀ j, j < docK init reps → ∃ p s0 u, ps[j]? = some p ∧ us[j]? = some u ∧
+        requested n drawn init j = some s0 ∧ IsPathOf (sparseStep c1d indices indptr) s0 u p ∧
+        p.length = ts ∧ ∀ x ∈ p, x < n :=
+  simulateIndices_valid n (sparseStep c1d indices indptr)
+    (fun s u hs => sparseStep_lt n c1d indices indptr hcsr s u hs)
+    init reps drawn ts us hok hdrawn hts hk hrow
+
+example : (match simulateIndices 2 (pathDense ([[1, 4], [4, 4]] : List (List Int))) (.arr [-1, 0]) (some 1) [] 3
+    [[0, 4], [3, 9]] with | .ok (some r) => r.paths | _ => []) = [[1, 0, 1], [0, 1, 0]] := by decide +kernel
+
+/-- **`simulate`** (`get_index` with `state_values=None`, then `simulate_indices`): identical to
+    `simulate_indices` when every requested value is an existing state `0 ≤ i < n`, and a
+    `ValueError` otherwise — negative indices are not state values. -/
+theorem simulate_spec (n : Nat) (f : Nat → List α → Option (List Nat)) (init : Init)
+    (reps : Option Nat) (drawn : List Nat) (ts : Nat) (us : List (List α)) :
+    (InitNonneg n init → simulate n f init reps drawn ts us = simulateIndices n f init reps drawn ts us) ∧
+    (¬ InitNonneg n init → simulate n f init reps drawn ts us = .error .valueError) :=
+  simulate_eq n f init reps drawn ts us
+
+example : InitNonneg 3 (.arr [0, 2]) := by simp [InitNonneg]
+example : ¬ InitNonneg 3 (.scalar (-1)) := by simp [InitNonneg]
+
+/-- **mc_sample_path, every stream.** `P` square; `init` a state in `[0, n)` or an initial
+    distribution of length `n` (then `X_0 = searchsorted_cdf(cumsum init, u_0)`, a state for *every*
+    `u_0`); `sample_size = ts ≥ 1`.  The result is one path of length `ts` starting at `X_0`, inside
+    the state space, following the dense kernel step. -/
+theorem mc_sample_path_valid [Add α] [LT α] [DecidableLT α] [BEq α] (P : List (List α))
+    (hsq : ∀ row ∈ P, row.length = P.length) (init : McInit α)
+    (hinit : match init with
+      | .state i => 0 ≤ i ∧ i < (P.length : Int)
+      | .dist d _ => d.length = P.length ∧ d ≠ [])
+    (ts : Nat) (hts : 0 < ts) (u : List α) (hu : u.length + 1 = ts) :
+    ∃ p, mcSamplePath P init ts [u] = .ok (some ⟨1, [p]⟩) ∧ p.length = ts ∧
+      p[0]? = some (mcX0 init).toNat ∧ (∀ x ∈ p, x < P.length) ∧
+      IsPathOf (denseStep (cdfsDense P)) (mcX0 init).toNat u p :=
+  mcSamplePath_valid P hsq init hinit ts hts u hu
+
+example : (match mcSamplePath ([[1, 3], [0, 4]] : List (List Int)) (.dist [2, 2] 3) 3 [[2, 0]] with
+    | .ok (some r) => r.paths | _ => []) = [[1, 1, 1]] := by decide +kernel
+
+/-! ## 5. `DiscreteRV.draw` and `random.draw` -/
+
+/-- **`random.draw`**: one index per uniform, each in `range(len cdf)` — any `cdf ≠ []`, any values. -/
+theorem draw_valid [LT α] [DecidableLT α] [BEq α] (cdf us : List α) (hne : cdf ≠ []) :
+    (draw cdf us).length = us.length ∧ ∀ x ∈ draw cdf us, 0 ≤ x ∧ x < (cdf.length : Int) :=
+  ⟨draw_length cdf us, draw_in_range cdf us hne⟩
+
+/-- **`DiscreteRV.draw`, range, every stream** (only irreflexivity of `<` is assumed): one index
+    per uniform, each `< len q`; no `IndexError` for nonempty `q`. -/
+theorem drv_draw_in_range [Add α] [LT α] [DecidableLT α] (hirr : ∀ x : α, ¬ x < x) (q us : List α)
+    (hne : q ≠ []) :
+    ∃ idx, drvDraw q us = some idx ∧ idx.length = us.length ∧ ∀ j ∈ idx, j < q.length :=
+  drvDraw_in_range hirr q us hne
+
+/-- **`DiscreteRV.draw` = inverse CDF with positive mass.** For nonnegative `q` with positive total,
+    monotone accumulation and uniforms `≥ 0`, the NumPy-based draw returns exactly
+    `searchsorted_cdf(cumsum q, u)` for each `u` (so `step_inverse_cdf` describes it), and every
+    returned index carries positive mass. -/
+theorem drv_draw_valid [LinearOrder α] [Add α] [Zero α] (hadd0 : ∀ x : α, x + 0 = x)
+    (hmono : ∀ x p : α, 0 ≤ p → x ≤ x + p) (q us : List α) (hq : ∀ x ∈ q, (0 : α) ≤ x)
+    (hne : q ≠ []) (hlast : 0 < (cumsum q).getLast (cumsum_ne_nil hne)) (hus : ∀ u ∈ us, (0 : α) ≤ u) :
+    drvDraw q us = some (us.map (searchsortedCdf (cumsum q))) ∧
+    ∀ u ∈ us, ∃ h : searchsortedCdf (cumsum q) u < q.length, 0 < q[searchsortedCdf (cumsum q) u] :=
+  drvDraw_valid hadd0 hmono q us hq hne hlast hus
+
+example : drvDraw ([2, 0, 5, 0] : List Int) [0, 1, 2, 6, 7, 100] = some [0, 0, 2, 2, 2, 2] := by
+  decide +kernel
+
+/-! ## 6. the CSR arrays: `cdfs1d` -/
+
+/-- **`cdfs1d` is the row-wise cumulative sum.** For a canonical CSR structure (`CsrCanon`) the
+    model of `MarkovChain.cdfs1d` has the length of `data`, its slice for row `s` is
+    `cumsum(data[indptr[s]:indptr[s+1]])`, and together with `indices`, `indptr` it satisfies the
+    precondition `CsrOK` of `path_valid_sparse`. -/
+theorem cdfs1d_spec [Add α] {n : Nat} {data : List α} {indices indptr : List Nat}
+    (h : CsrCanon n data indices indptr) :
+    (cdfs1d data indptr n).length = data.length ∧
+    (∀ s, s < n → slice (cdfs1d data indptr n) (indptr.getD s 0) (indptr.getD (s + 1) 0)
+        = cumsum (slice data (indptr.getD s 0) (indptr.getD (s + 1) 0))) ∧
+    CsrOK n (cdfs1d data indptr n) indices indptr :=
+  ⟨cdfs1d_length h, fun s hs => cdfs1d_slice h s hs, h.csrOK⟩
+
+/-- **Only positive-probability transitions along the whole path (CSR).**  Canonical CSR arrays,
+    nonnegative stored masses, positive row totals, every `u ≥ 0`: each transition `a → b` of the
+    returned path goes to the column `b = indices[q]` of an entry `q` stored in row `a`
+    (`indptr[a] ≤ q < indptr[a+1]`) with `data[q] > 0`, and `q − indptr[a]` is the
+    `searchsorted_cdf` image of `us[t]` in the cumulative sums of the row's stored masses
+    (described by `step_inverse_cdf`). -/
+theorem path_transitions_positive_sparse [LinearOrder α] [Add α] [Zero α]
+    (hadd0 : ∀ x : α, x + 0 = x) {n : Nat} {data : List α} {indices indptr : List Nat}
+    (h : CsrCanon n data indices indptr) (hnn : ∀ x ∈ data, (0 : α) ≤ x)
+    (htot : ∀ s, s < n → ∀ hc : rowCum data indptr s ≠ [], 0 < (rowCum data indptr s).getLast hc)
+    (init : Nat) (hinit : init < n) (us : List α) (hus : ∀ u ∈ us, (0 : α) ≤ u) :
+    ∃ p, pathSparse (cdfs1d data indptr n) indices indptr init us = some p ∧
+      p.length = us.length + 1 ∧ p[0]? = some init ∧ (∀ x ∈ p, x < n) ∧
+      ∀ t (ht : t < us.length), ∃ a b q, ∃ (hd : q < data.length) (hi : q < indices.length),
+        p[t]? = some a ∧ p[t + 1]? = some b ∧ indptr.getD a 0 ≤ q ∧ q < indptr.getD (a + 1) 0 ∧
+        q = indptr.getD a 0 +
+          searchsortedCdf (cumsum (slice data (indptr.getD a 0) (indptr.getD (a + 1) 0))) us[t] ∧
+        indices[q] = b ∧ 0 < data[q] := by
+  obtain ⟨p, hp, ⟨hlen, hhead, hfol⟩, hall⟩ :=
+    path_valid_sparse n (cdfs1d data indptr n) indices indptr h.csrOK init hinit us
+  refine ⟨p, hp, hlen, hhead, hall, ?_⟩
+  intro t ht
+  obtain ⟨a, b, ha, hb, hab⟩ := hfol t ht
+  have han : a < n := hall a (List.mem_of_getElem? ha)
+  obtain ⟨k, hk, hd, hi, hkeq, hstep, hpos⟩ :=
+    sparseStep_mass_pos hadd0 h hnn htot a han us[t] (hus _ (List.getElem_mem ht))
+  rw [hstep] at hab
+  exact ⟨a, b, indptr.getD a 0 + k, hd, hi, ha, hb, by omega, hk, by rw [hkeq], Option.some.inj hab, hpos⟩
+
+/-- non-vacuity of `CsrCanon` (a 2×2 matrix with an explicitly stored zero and unsorted columns) -/
+example : CsrCanon 2 ([3, 1, 0, 3] : List Int) [1, 0, 1, 0] [0, 1, 4] where
+  len := rfl
+  start := rfl
+  mono := by intro s hs; have : s = 0 ∨ s = 1 := by omega
+             rcases this with rfl | rfl <;> decide
+  total := rfl
+  ilen := rfl
+  cols := by decide
+example : cdfs1d ([3, 1, 0, 3] : List Int) [0, 1, 4] 2 = [3, 1, 1, 4] := by decide
+
+/-! ## 7. no read outside the arrays; hypotheses in terms of `P` only -/
+
+/-- **The searches never read outside their array.** `ssLoopC`, `searchsortedCdfC` are
+    `searchsorted` / `searchsorted_cdf` with *aborting* reads (`none` as soon as an index is out of
+    range); for every array and every value they terminate normally with the model's result, so the
+    default branches of the model's totalised reads are dead code. (The row / `indices` / `indptr`
+    reads of the kernels abort in the model itself: `pathDense`, `pathSparse` return `some`.) -/
+theorem no_read_outside_search [LT α] [DecidableLT α] [BEq α] (cdf : List α) (v : α) :
+    ssLoopC cdf v 0 cdf.length = some (searchsorted cdf v) ∧
+    (cdf ≠ [] → searchsortedCdfC cdf v = some (searchsortedCdf cdf v)) :=
+  searchsorted_reads_in_range cdf v
+
+/-- a nonnegative row with one positive entry has a positive last cumulative sum (monotone
+    accumulation in both arguments; true of IEEE addition) — this discharges the hypothesis
+    `hlast`/`htot` of the positivity theorems from what the constructor checks -/
+theorem row_total_positive [LinearOrder α] [Add α] [Zero α]
+    (hmono : ∀ x p : α, 0 ≤ p → x ≤ x + p) (hmono' : ∀ x p : α, 0 ≤ x → p ≤ x + p)
+    (l : List α) (hl : ∀ x ∈ l, (0 : α) ≤ x) (hex : ∃ x ∈ l, (0 : α) < x)
+    (hne : cumsum l ≠ []) : 0 < (cumsum l).getLast hne :=
+  cumsum_getLast_pos hmono hmono' l hl hex hne
+
+/-- **The dense path follows the transition law — exact arithmetic instance.**  `P` a square
+    matrix of nonnegative rationals in which every row has a positive entry (e.g. rows summing to
+    one), `init < n`, uniforms `≥ 0` (and otherwise arbitrary: no `u < 1` needed): the path returned
+    for `MarkovChain.cdfs = cdfsDense P` starts at `init`, has `len us + 1` entries, all `< n`, and
+    every transition `a → b` in it has `P[a][b] > 0`. -/
+theorem path_follows_transition_law_dense_rat (P : List (List Rat))
+    (hsq : ∀ row ∈ P, row.length = P.length)
+    (hnn : ∀ row ∈ P, ∀ x ∈ row, (0 : Rat) ≤ x)
+    (hex : ∀ row ∈ P, ∃ x ∈ row, (0 : Rat) < x)
+    (init : Nat) (hinit : init < P.length) (us : List Rat) (hus : ∀ u ∈ us, (0 : Rat) ≤ u) :
+    ∃ p, pathDense (cdfsDense P) init us = some p ∧ p.length = us.length + 1 ∧ p[0]? = some init ∧
+      (∀ x ∈ p, x < P.length) ∧
+      ∀ t, t < us.length → ∃ a b, ∃ (ha : a < P.length) (hb : b < P[a].length),
+        p[t]? = some a ∧ p[t + 1]? = some b ∧ 0 < P[a][b] :=
+  path_transitions_positive_dense (fun x => add_zero x) P hsq hnn
+    (fun row hr hc => cumsum_getLast_pos (fun _ _ hp => le_add_of_nonneg_right hp)
+      (fun _ _ hx => le_add_of_nonneg_left hx) row (hnn row hr) (hex row hr) hc)
+    init hinit us hus
+
+/-- non-vacuity: a 2-state stochastic matrix over `Rat` with a zero entry -/
+example : ∀ row ∈ ([[1/2, 1/2], [1, 0]] : List (List Rat)), ∃ x ∈ row, (0 : Rat) < x := by
+  intro row hr
+  simp only [List.mem_cons, List.not_mem_nil, or_false] at hr
+  rcases hr with rfl | rfl
+  · exact ⟨1/2, by simp, by decide +kernel⟩
+  · exact ⟨1, by simp, by decide +kernel⟩
+
+/-! ## 8. refusals, state values, and the statements at `Float` -/
+
+/-- **When `simulate_indices` refuses.** It raises — always `ValueError` — exactly when a requested
+    initial state is outside `[-n, n)` (or `init=None` on an empty state space) or `ts_length = 0`;
+    the random stream plays no role in this. -/
+theorem simulate_indices_refused_iff (n : Nat) (f : Nat → List α → Option (List Nat)) (init : Init)
+    (reps : Option Nat) (drawn : List Nat) (ts : Nat) (us : List (List α)) :
+    ((∃ e, simulateIndices n f init reps drawn ts us = .error e) ↔ (¬ InitOK n init reps ∨ ts = 0)) ∧
+    ∀ e, simulateIndices n f init reps drawn ts us = .error e → e = .valueError :=
+  simulateIndices_error_iff n f init reps drawn ts us
+
+/-- **Value look-up of `simulate`** on a chain with 1-D `state_values`: a value that is not a state
+    value is refused; otherwise the *first* position holding it is used. -/
+theorem state_value_lookup (sv : List Int) (v : Int) :
+    (v ∉ sv → getIndexSV sv (.scalar v) = .error .valueError) ∧
+    (v ∈ sv → ∃ i, getIndexSV sv (.scalar v) = .ok (.scalar (Int.ofNat i)) ∧
+      ∃ h : i < sv.length, sv[i] = v ∧ ∀ j (hj : j < i), sv[j] ≠ v) :=
+  getIndexSV_scalar sv v
+
+example : getIndexSV [7, 3, 7] (.scalar 7) = .ok (.scalar 0) := by rfl
+example : getIndexSV [7, 3, 7] (.scalar 5) = .error .valueError := by rfl
+
+/-- **`simulate` with state values returns state values.** If the look-up succeeds and
+    `simulate_indices` returns paths inside `range(len state_values)` (which
+    `simulate_indices_valid_dense/sparse` guarantee when `len state_values = n`), the result is the
+    entry-wise annotation `state_values[X]` with the same `dim`, and every entry is a state value. -/
+theorem simulate_with_state_values (sv : List Int) (n : Nat) (f : Nat → List α → Option (List Nat))
+    (init i : Init) (reps : Option Nat) (drawn : List Nat) (ts : Nat) (us : List (List α)) (r : SimRes)
+    (hlook : getIndexSV sv init = .ok i)
+    (hsim : simulateIndices n f i reps drawn ts us = .ok (some r))
+    (hin : ∀ p ∈ r.paths, ∀ s ∈ p, s < sv.length) :
+    simulateSV sv n f init reps drawn ts us
+      = .ok (some (r.dim, r.paths.map fun p => p.map fun s => sv.getD s 0)) ∧
+    ∀ p ∈ r.paths, ∀ s ∈ p, sv.getD s 0 ∈ sv := by
+  obtain ⟨h1, h2⟩ := annotate_spec sv r.paths hin
+  refine ⟨?_, h2⟩
+  unfold simulateSV
+  rw [hlook]
+  simp only [hsim, h1, Option.map_some]
+
+/-- The range statements are about the very instance the driver runs against the code's bits:
+    at `Float` (NaN, ±∞ and unsorted rows included) the dense kernel's path exists, has the right
+    length, starts at `init` and stays below `n`, for every list of doubles. -/
+example (cdfs : List (List Float)) (hsq : ∀ row ∈ cdfs, row.length = cdfs.length) (init : Nat)
+    (hinit : init < cdfs.length) (us : List Float) :
+    ∃ p, pathDense cdfs init us = some p ∧ p.length = us.length + 1 ∧ p[0]? = some init ∧
+      ∀ x ∈ p, x < cdfs.length := by
+  obtain ⟨p, h1, h2, h3, h4, _⟩ := path_valid_dense cdfs hsq init hinit us
+  exact ⟨p, h1, h2, h3, h4⟩
+
+example (n : Nat) (c1d : List Float) (indices indptr : List Nat) (hok : CsrOK n c1d indices indptr)
+    (init : Nat) (hinit : init < n) (us : List Float) :
+    ∃ p, pathSparse c1d indices indptr init us = some p ∧ ∀ x ∈ p, x < n := by
+  obtain ⟨p, h1, _, h3⟩ := path_valid_sparse n c1d indices indptr hok init hinit us
+  exact ⟨p, h1, h3⟩
+
+example (cdf us : List Float) (hne : cdf ≠ []) : ∀ x ∈ draw cdf us, 0 ≤ x ∧ x < (cdf.length : Int) :=
+  (draw_valid cdf us hne).2
+
+/-! ## 9. every chain the constructor accepts -/
+
+/-- **The constructor's checks** (`MarkovChain.__init__`, exact-arithmetic reading): accepted iff
+    square, nonnegative, and every row sum within `1e-8 + 1e-5` of one. -/
+theorem constructor_accepts_iff (P : List (List Rat)) :
+    acceptChain P = .ok () ↔
+      (∀ r ∈ P, r.length = P.length) ∧ (∀ r ∈ P, ∀ x ∈ r, (0 : Rat) ≤ x) ∧
+      (∀ r ∈ P, closeToOne (rsum r) = true) :=
+  acceptChain_ok_iff P
+
+/-- **Headline (exact arithmetic).**  For *every* matrix the constructor accepts — rows need only
+    sum to one within the tolerance, may contain zeros anywhere —, every initial state and every
+    stream of nonnegative numbers (however close to, or beyond, 1), the dense kernel returns a path
+    of the documented length that starts at `init`, stays in the state space, never reads outside the
+    cdf array, and moves only along transitions of positive probability. -/
+theorem accepted_chain_path_follows_law (P : List (List Rat)) (hacc : acceptChain P = .ok ())
+    (init : Nat) (hinit : init < P.length) (us : List Rat) (hus : ∀ u ∈ us, (0 : Rat) ≤ u) :
+    ∃ p, pathDense (cdfsDense P) init us = some p ∧ p.length = us.length + 1 ∧ p[0]? = some init ∧
+      (∀ x ∈ p, x < P.length) ∧
+      ∀ t, t < us.length → ∃ a b, ∃ (ha : a < P.length) (hb : b < P[a].length),
+        p[t]? = some a ∧ p[t + 1]? = some b ∧ 0 < P[a][b] := by
+  obtain ⟨h1, h2, _⟩ := (acceptChain_ok_iff P).mp hacc
+  exact path_follows_transition_law_dense_rat P h1 h2 (accepted_row_has_pos P hacc) init hinit us hus
+
+/-- non-vacuity: a deficient row (`0.3 + 0.699995`, trailing zeros) is accepted; an all-zero row is not -/
+example : acceptChain [[3/10, 699995/1000000, 0], [0, 1, 0], [1/3, 1/3, 1/3]] = .ok () := by
+  decide +kernel
+example : acceptChain [[0, 0], [1/2, 1/2]] = .error .valueError := by decide +kernel
+
+/-! ## 10. rounded arithmetic -/
+
+/-- **The dense path follows the transition law under any monotone idempotent rounding.**
+    `R : Rounding` is an arbitrary monotone, idempotent map of ℚ onto a set of representable numbers
+    containing 0 (IEEE-754 round-to-nearest on the finite range is one), `Fl R` the representable
+    numbers with the rounded addition `rnd (x + y)` — which is what `np.cumsum` performs.  For a square
+    matrix of nonnegative representable numbers in which every row has a positive entry, every
+    `init < n` and every stream of nonnegative representable numbers: the kernel on
+    `cdfs = cdfsDense P` (cumulative sums computed *with rounding*) returns a path of length
+    `len us + 1` from `init`, inside the state space, whose every transition `a → b` has
+    `P[a][b] > 0`.  So rounding in the cumulative sums can never lead to a zero-probability state
+    or out of the state space. -/
+theorem path_follows_transition_law_dense_rounded (R : Rounding) (P : List (List (Fl R)))
+    (hsq : ∀ row ∈ P, row.length = P.length)
+    (hnn : ∀ row ∈ P, ∀ x ∈ row, (0 : Fl R) ≤ x)
+    (hex : ∀ row ∈ P, ∃ x ∈ row, (0 : Fl R) < x)
+    (init : Nat) (hinit : init < P.length) (us : List (Fl R)) (hus : ∀ u ∈ us, (0 : Fl R) ≤ u) :
+    ∃ p, pathDense (cdfsDense P) init us = some p ∧ p.length = us.length + 1 ∧ p[0]? = some init ∧
+      (∀ x ∈ p, x < P.length) ∧
+      ∀ t, t < us.length → ∃ a b, ∃ (ha : a < P.length) (hb : b < P[a].length),
+        p[t]? = some a ∧ p[t + 1]? = some b ∧ 0 < P[a][b] :=
+  path_transitions_positive_dense Fl.add_zero' P hsq hnn
+    (fun row hr hc => cumsum_getLast_pos Fl.le_add_right' Fl.le_add_left' row (hnn row hr) (hex row hr) hc)
+    init hinit us hus
+
+/-- the inverse-CDF characterisation under the same rounding model -/
+theorem step_inverse_cdf_rounded (R : Rounding) (p : List (Fl R)) (u : Fl R)
+    (hp : ∀ x ∈ p, (0 : Fl R) ≤ x) (hne : p ≠ []) :
+    let cdf := cumsum p
+    let j := searchsortedCdf cdf u
+    (u < cdf.getLast (cumsum_ne_nil hne) →
+      j ≤ cdf.length ∧ (∀ i (h : i < cdf.length), i < j → cdf[i] ≤ u) ∧
+        (∀ i (h : i < cdf.length), j ≤ i → u < cdf[i])) ∧
+    (cdf.getLast (cumsum_ne_nil hne) ≤ u →
+      ∃ hj : j < cdf.length, cdf[j] = cdf.getLast (cumsum_ne_nil hne) ∧
+        ∀ i (h : i < cdf.length), i < j → cdf[i] < cdf.getLast (cumsum_ne_nil hne)) :=
+  step_inverse_cdf Fl.le_add_right' p u hp hne
+
+/-- non-vacuity: exact arithmetic is a `Rounding`, and so is rounding down to multiples of `1/8`,
+    which is lossy (`3/16 ↦ 1/8`) -/
+example : Rounding := Rounding.exact
+example : Rounding := Rounding.floor8
+example : Rounding.floor8.rnd (3 / 16) = 1 / 8 := floor8_lossy
+
+/-- **simulate_indices on a sparse chain, from the CSR arrays themselves.**  Composition of
+    `cdfs1d_spec` and `simulate_indices_valid_sparse`: canonical CSR arrays (`CsrCanon`), the model's
+    `cdfs1d`, an acceptable request, `ts ≥ 1`, any `(k, ts−1)` array: documented shape, every path
+    starts at its requested state, stays below `n` and follows the CSR step. -/
+theorem simulate_indices_valid_sparse_canon [Add α] [LT α] [DecidableLT α] [BEq α] {n : Nat}
+    {data : List α} {indices indptr : List Nat} (hc : CsrCanon n data indices indptr)
+    (init : Init) (reps : Option Nat) (drawn : List Nat) (ts : Nat) (us : List (List α))
+    (hok : InitOK n init reps)
+    (hdrawn : init = .none → docK init reps ≤ drawn.length ∧ ∀ d ∈ drawn, d < n)
+    (hts : 0 < ts) (hk : us.length = docK init reps) (hrow : ∀ r ∈ us, r.length + 1 = ts) :
+    ∃ ps, simulateIndices n (pathSparse (cdfs1d data indptr n) indices indptr) init reps drawn ts us
+        = .ok (some ⟨docDim init reps, ps⟩) ∧
+      ps.length = docK init reps ∧
+      ∀ j, j < docK init reps → ∃ p s0 u, ps[j]? = some p ∧ us[j]? = some u ∧
+        requested n drawn init j = some s0 ∧
+        IsPathOf (sparseStep (cdfs1d data indptr n) indices indptr) s0 u p ∧
+        p.length = ts ∧ ∀ x ∈ p, x < n :=
+  simulate_indices_valid_sparse n (cdfs1d data indptr n) indices indptr hc.csrOK
+    init reps drawn ts us hok hdrawn hts hk hrow
+
+/-- **The CSR path follows the transition law — exact arithmetic instance**, hypotheses on the
+    matrix only: canonical CSR arrays over `Rat`, nonnegative stored masses, a positive stored mass in
+    every row (what the constructor's row-sum test guarantees), `init < n`, uniforms `≥ 0`.  Every
+    transition `a → b` of the returned path uses an entry `q` stored in row `a` with column `b`,
+    `data[q] > 0`, at the `searchsorted_cdf` position of the row's cumulative sums. -/
+theorem path_follows_transition_law_sparse_rat {n : Nat} {data : List Rat} {indices indptr : List Nat}
+    (h : CsrCanon n data indices indptr) (hnn : ∀ x ∈ data, (0 : Rat) ≤ x)
+    (hex : ∀ s, s < n → ∃ x ∈ slice data (indptr.getD s 0) (indptr.getD (s + 1) 0), (0 : Rat) < x)
+    (init : Nat) (hinit : init < n) (us : List Rat) (hus : ∀ u ∈ us, (0 : Rat) ≤ u) :
+    ∃ p, pathSparse (cdfs1d data indptr n) indices indptr init us = some p ∧
+      p.length = us.length + 1 ∧ p[0]? = some init ∧ (∀ x ∈ p, x < n) ∧
+      ∀ t (ht : t < us.length), ∃ a b q, ∃ (hd : q < data.length) (hi : q < indices.length),
+        p[t]? = some a ∧ p[t + 1]? = some b ∧ indptr.getD a 0 ≤ q ∧ q < indptr.getD (a + 1) 0 ∧
+        q = indptr.getD a 0 +
+          searchsortedCdf (cumsum (slice data (indptr.getD a 0) (indptr.getD (a + 1) 0))) us[t] ∧
+        indices[q] = b ∧ 0 < data[q] :=
+  path_transitions_positive_sparse (fun x => add_zero x) h hnn
+    (fun s hs hc => cumsum_getLast_pos (fun _ _ hp => le_add_of_nonneg_right hp)
+      (fun _ _ hx => le_add_of_nonneg_left hx) _
+      (fun x hx => hnn x (by unfold slice at hx; exact List.mem_of_mem_drop (List.mem_of_mem_take hx)))
+      (hex s hs) hc)
+    init hinit us hus
 
 end QE.C10
